@@ -132,7 +132,8 @@ func c11R5(c *Ctx, rule string) {
 		n := 0
 		for _, call := range callsIn(fn) {
 			name := calleeName(call.Common())
-			if !(strings.Contains(name, "NewEvaluator") || strings.Contains(name, ").eval") || name == "lang.EvalExpression" || strings.Contains(name, "Decode") || strings.Contains(name, "setGlobal")) {
+			split := call.Common().StaticCallee() != nil && call.Common().StaticCallee() != fn && p.inClusterOf(fn, call.Common().StaticCallee()) // a part of fn split off it
+			if !(split || strings.Contains(name, "NewEvaluator") || strings.Contains(name, ").eval") || name == "lang.EvalExpression" || strings.Contains(name, "Decode") || strings.Contains(name, "setGlobal")) {
 				continue
 			}
 			n++
